@@ -65,11 +65,11 @@ ConnPlan(k) ==
       \* assigns the I/O channel's id to a user)
       uid == IF k % 3 = 0 THEN Pick(UidBoundaries) ELSE 1001 + RandomElement((0..64534) \ {2}) IN
   [cfg |-> [BaseCfg EXCEPT !.nla = nla, !.check = check, !.admin = admin, !.blank = Pick(BOOLEAN), !.auto = Pick(BOOLEAN), !.hash = hash,
-                           !.domain = dom, !.user = usr, !.password = pw, !.name = Pick(NameClasses), !.w = size[1], !.h = size[2], !.layout = Pick({"us", "fr", "de"})],
+                           !.domain = dom, !.user = usr, !.password = pw, !.name = Pick(NameClasses), !.w = size[1], !.h = size[2], !.layout = Pick({"ar", "bg", "zh", "cs", "da", "de", "el", "us", "es", "fi", "fr", "he", "hu", "is", "it", "ja", "ko", "nl", "no"})],
    srv |-> [BaseSrv EXCEPT !.reply = [kind |-> "rsp", sel |-> B4(sel), flags |-> Pick({0, 1, 8, 255})], !.ident = Pick({"leaf", "leaf2"}) , !.uid = uid,
                            !.account = [domain |-> dom, user |-> usr, password |-> pw]]
            @@ [blocks |-> [version |-> Pick(Versions), core_opt |-> Pick(0..2), with_security |-> Pick(BOOLEAN), order |-> Pick(Orders)],
-               licence |-> Pick({"valid", "new"}), licflags |-> Pick({2, 3, 130, 131}), share |-> B4(Pick({0, 1, 66538, 16777215})) , capv |-> Pick(0..3), activations |-> Pick({1, 1, 2}), errinfo |-> Pick(BOOLEAN)],
+               licence |-> Pick({"valid", "new"}), licflags |-> Pick({2, 3, 130, 131}), share |-> B4(Pick({0, 1, 66538, 16777215})) , capv |-> Pick(0..7), activations |-> Pick({1, 1, 2}), errinfo |-> Pick(BOOLEAN)],
    inputs |-> << [api |-> "write", dev |-> "ptr", x |-> Pick({0, 1, 65535}), y |-> 5, b |-> Pick(0..3), down |-> Pick(BOOLEAN)],
                  [api |-> "try_write", dev |-> "key", code |-> Pick({0, 30, 65535}), down |-> Pick(BOOLEAN)] >>,
    shutdown |-> TRUE]
